@@ -140,8 +140,11 @@ def explore(report, property_id, name, cfg, fmts=("delimited",), require=READ_AC
                     continue
             if fmt.startswith("fixed"):
                 shape = _shape(vec, fmt)
-                if not all(shape.has_fixed_form(entry["run"]["ds"]) for entry in vec["hist"]):
-                    continue
+                if not all(shape.has_fixed_form(entry["run"]["ds"]) for entry in vec["hist"] if entry["run"]["op"] == "read"):
+                    continue  # (fixed-width DATA cannot hold ragged rows; a writer can still be handed them)
+                if any(row["w"] != "ok" for entry in vec["hist"] if entry["run"]["op"] == "write"
+                       for row in entry["run"]["ds"]["rows"][:vec["header"]]):
+                    continue  # (... but not as unvalidated header rows: they cannot be laid out in fixed width at all)
             jobs.append((vec, fmt))
     outcomes = core.parallel_map(_replay_job, jobs, chunk=50)
     for (vec, fmt), findings in zip(jobs, outcomes):
